@@ -122,7 +122,7 @@ class ModGen:
             self.bind(n, "assign" if (form.startswith("(%s, %s) = %s") and i == 2) else "tuple")
 
     def st_attr(self):
-        fns = [n for n, h in self.bound.items() if "def" in h and n.isascii()]
+        fns = [n for n, h in self.bound.items() if "def" in h and n.isascii() and n != "__all__"]
         if not fns:
             return self.st_assign()
         f = self.rng.choice(fns)
@@ -298,7 +298,7 @@ class ModGen:
                 forms += ["def __all__():\n    pass", "class __all__:\n    pass"]
             self.emit(rng.choice(forms))
             self.allv, self.broken_star = None, True
-            self.bind("__all__", "def")
+            self.bind("__all__", "assign")
 
     def st_all_aug(self):
         rng = self.rng
